@@ -37,7 +37,19 @@ def _mods():
 
 
 def enum_f(E):
-    return (lambda v: E(v), lambda m: m.value)
+    to = lambda v: E(v)
+    to.enum = E          # marks an enumeration-typed field (see Adapter.build(plain=True))
+    return (to, lambda m: m.value)
+
+
+def accepts_int(C, kw):
+    """does the constructor of C declare that keyword `kw` may be given as a plain int (Union[int, <Enum>])?"""
+    import typing
+    try:
+        hint = typing.get_type_hints(C.__init__).get(kw)
+    except Exception:  # noqa
+        return False
+    return hint is int or int in typing.get_args(hint)
 
 
 IDENT = (lambda v: v, lambda x: int(x))
@@ -215,14 +227,28 @@ class Adapter:
         return dom
 
     # ------------------------------------------------------------------ build
-    def build(self, name, vals):
+    def build(self, name, vals, plain=False):
+        """plain: enumeration-typed fields are given as plain integers wherever the constructor declares it accepts them"""
         fam, sub = name.split("/")
         M = self.M
         kw = {}
+        C0 = None
+        if plain:
+            import importlib
+            C0 = {"CSBK": ("okdmr.dmrlib.etsi.layer2.pdu.csbk", "CSBK"), "DataHeader": ("okdmr.dmrlib.etsi.layer2.pdu.data_header", "DataHeader"),
+                  "FullLC96": ("okdmr.dmrlib.etsi.layer2.pdu.full_link_control", "FullLinkControl"),
+                  "FullLC77": ("okdmr.dmrlib.etsi.layer2.pdu.full_link_control", "FullLinkControl"),
+                  "ShortLC": ("okdmr.dmrlib.etsi.layer2.pdu.short_link_control", "ShortLinkControl"),
+                  "UDP": ("okdmr.dmrlib.etsi.layer3.pdu.udp_ipv4_compressed_header", "UDPIPv4CompressedHeader")}.get(fam)
+            C0 = getattr(importlib.import_module(C0[0]), C0[1]) if C0 else None
         for f, v in vals.items():
             ent = self.T.get(fam, {}).get(f)
             if ent is not None:
-                kw[ent[0]] = ent[2][0](v)
+                conv = ent[2][0]
+                if C0 is not None and getattr(conv, "enum", None) is not None and accepts_int(C0, ent[0]):
+                    kw[ent[0]] = v
+                else:
+                    kw[ent[0]] = conv(v)
         if fam == "CSBK":
             from okdmr.dmrlib.etsi.layer2.pdu.csbk import CSBK
             if "cto_hi" in vals:
